@@ -23,9 +23,10 @@ SEARCH = "/".join(SID.split("/")[:3] + ["*"] * (len(SID.split("/")) - 3))
 if len(OTHER.split("/")) != len(SID.split("/")):
     SEARCH = "h/" + SID.split("/")[1] + "/**"
 KEYS = ["comment", "author"]
-VALS = ["x", "a much longer value than the others", 7, "é✓"]
+VALS = ["x", "a much longer value than the others", 7, "é✓", {"inner": {"k": 1}}]
 _R = list(range(64))
 NEXT = envstr("VF_NEXT", "author")
+NESTED = envint("VF_NESTED", 0)
 FIRST = envint("VF_FIRST_WRITE", 0)      # 1: no side-car before the write (first write)
 
 
@@ -76,6 +77,10 @@ def crash(at: int, nbytes: int) -> bool:
     other_before = _data(OTHER)
     new = dict(old)
     new[KEYS[new_k]] = json.loads(json.dumps(VALS[new_v]))
+    if NESTED and nbytes == 30:
+        # a torn write that ends exactly after the first closing brace of the (nested) text being written
+        text = json.dumps(dict(new), indent=4, default=str)
+        nbytes = text.index("}") + 1
     del memfs.LOG[:]
     memfs.CRASH_AT = at
     memfs.CRASH_BYTES = nbytes
